@@ -18,6 +18,7 @@
  *   dup SRC DST
  */
 #include "project_stores.h"
+#include <sched.h>
 #include <hwloc.h>
 #include <hwloc/export.h>
 #include <hwloc/distances.h>
@@ -124,6 +125,19 @@ static void out_topos(void) {
 }
 /* the text of the command after its slot: two events with the same name and the same args are the same call on two topologies */
 static char argline[8192];
+/* the CPU binding of this process as range list (what hwloc_get_cpubind() reads when a topology claims to be this system) */
+static cpu_set_t orig_aff; static int have_orig_aff;
+static void out_affinity(void) {
+  cpu_set_t m; int i, lo = -1, first = 1;
+  out("[");
+  if (!sched_getaffinity(0, sizeof m, &m))
+    for (i = 0; i <= CPU_SETSIZE; i++) {
+      int on = i < CPU_SETSIZE && CPU_ISSET(i, &m);
+      if (on && lo < 0) lo = i;
+      if (!on && lo >= 0) { out("%s[%d,%d]", first ? "" : ",", lo, i - 1); first = 0; lo = -1; }
+    }
+  out("]");
+}
 static void ev_begin(const char *e, int s) { out("{\"e\":\"%s\",\"slot\":%d,\"args\":", e, s); out_jstr(argline); }
 static void ev_end(int ret, int err) { out(",\"ret\":%d,\"errno\":\"%s\"", ret, errname(err)); out_topos(); out("}"); out_end(); }
 
@@ -133,6 +147,7 @@ static void do_reset(char *p, int beh) {
   nslots = (int)hwv_tokl(&p); if (nslots < 1) nslots = 1; if (nslots > MAXSLOT) nslots = MAXSLOT;
   opt_xmldigest = 0; opt_stores = 0; opt_udspecial = 0; xml_seen = 0;
   memset(dcounter, 0, sizeof dcounter); memset(acounter, 0, sizeof acounter);
+  if (!have_orig_aff) { have_orig_aff = !sched_getaffinity(0, sizeof orig_aff, &orig_aff); } else sched_setaffinity(0, sizeof orig_aff, &orig_aff);
   unsetenv("HWLOC_FSROOT"); unsetenv("HWLOC_CPUID_PATH"); unsetenv("HWLOC_COMPONENTS"); unsetenv("HWLOC_XMLFILE"); unsetenv("HWLOC_SYNTHETIC");
   /* HWLOC_LIBXML_IMPORT / HWLOC_LIBXML_EXPORT are decided once per process by the library and are given by the caller: kept */
   unsetenv("HWLOC_THISSYSTEM"); unsetenv("HWLOC_DUMPED_HWDATA_DIR"); unsetenv("HWLOC_X86_TOPOEXT_NUMANODES"); unsetenv("HWLOC_THISSYSTEM_ALLOWED_RESOURCES"); unsetenv("HWLOC_XML_EXPORT_SUPPORT");
@@ -229,11 +244,18 @@ static void handler(char **lines, size_t n, int beh) {
         for (k = 0; k < HWLOC_OBJ_TYPE_MAX; k++) { enum hwloc_type_filter_e g = 0; hwloc_topology_get_type_filter(topo[s], (hwloc_obj_type_t)k, &g); out("%s%d", k ? "," : "", (int)g); }
         out("]"); }
       ev_end(ret, err);
+    } else if (!strcmp(cmd, "bind")) {
+      /* bind S <cpu list|all> : the CPU binding of the process (sched_setaffinity), as a caller of RESTRICT_TO_CPUBINDING would have set it */
+      char *cs = hwv_tok(&p); cpu_set_t m; int i;
+      if (cs && strcmp(cs, "all")) { hwloc_bitmap_t b = parse_set(cs); CPU_ZERO(&m); hwloc_bitmap_foreach_begin(i, b) if (i < CPU_SETSIZE) CPU_SET(i, &m); hwloc_bitmap_foreach_end(); hwloc_bitmap_free(b); }
+      else m = orig_aff;
+      ret = sched_setaffinity(0, sizeof m, &m); err = errno;
+      ev_begin("bind", s); out(",\"cpus\":"); out_affinity(); ev_end(ret, err);
     } else if (!strcmp(cmd, "load")) {
       if (loaded[s]) continue;
       ret = hwloc_topology_load(topo[s]); err = errno;
       if (!ret) loaded[s] = 1; else loaded[s] = 0;
-      ev_begin("load", s); ev_end(ret, err);
+      ev_begin("load", s); out(",\"binding\":"); out_affinity(); ev_end(ret, err);
       if (ret) { hwloc_topology_destroy(topo[s]); topo[s] = NULL; }   /* a failed load leaves a topology that can only be destroyed here */
     } else if (!loaded[s]) {
       continue;
@@ -337,7 +359,8 @@ static void handler(char **lines, size_t n, int beh) {
       for (k = 0; k < nb; k++) if (!objs[k]) break;
       if (k < nb) continue;
       errno = 0;
-      snprintf(dname, sizeof dname, "hwv%d", dcounter[s]++);      /* every structure of a topology has its own name */
+      { char *given = hwv_tok(&p);            /* optional last argument: the name of the structure (else: numbered per topology) */
+        if (given) snprintf(dname, sizeof dname, "%s", given); else snprintf(dname, sizeof dname, "hwv%d", dcounter[s]++); }
       h = hwloc_distances_add_create(topo[s], dname, kind, 0); err = errno;
       if (h) { r1 = hwloc_distances_add_values(topo[s], h, nb, objs, vals, 0); err = errno;
                if (!r1) { r2 = hwloc_distances_add_commit(topo[s], h, afl); err = errno; } }
@@ -366,7 +389,8 @@ static void handler(char **lines, size_t n, int beh) {
       unsigned long fl = (unsigned long)hwv_tokl(&p), gp = (unsigned long)hwv_tokl(&p); hwloc_uint64_t v = (hwloc_uint64_t)hwv_tokl(&p);
       char name[32]; hwloc_memattr_id_t id = 0; int r1, r2 = -1; hwloc_obj_t tg = find_gp(topo[s], gp);
       if (!tg) continue;
-      snprintf(name, sizeof name, "hwvattr%d", acounter[s]++);
+      { char *given = hwv_tok(&p);              /* optional last argument: the attribute name (else: numbered per topology) */
+        if (given) snprintf(name, sizeof name, "%s", given); else snprintf(name, sizeof name, "hwvattr%d", acounter[s]++); }
       errno = 0;
       r1 = hwloc_memattr_register(topo[s], name, fl, &id); err = errno;
       if (!r1 && !(fl & HWLOC_MEMATTR_FLAG_NEED_INITIATOR)) { r2 = hwloc_memattr_set_value(topo[s], id, tg, NULL, 0, v); err = errno; }
